@@ -1,5 +1,5 @@
 (* C01 — supply changes only by scheduled mint minus configured burn. *)
-From C4E Require Import Base Minter MinterProofs Distributor DistrCoins DistrProofs SupplyProofs Vest VestFrame VestSupply AppBlock.
+From C4E Require Import Base Minter MinterProofs Distributor DistrCoins DistrProofs SupplyProofs Vest VestFrame VestSupply MinterWalk AppBlock.
 Open Scope Z_scope.
 
 (* only the minter's BeginBlock creates coins: the supply grows by exactly the (non-negative) amount
@@ -63,10 +63,53 @@ Theorem C01_block_changes_supply_by_mint_minus_burn :
 Proof. exact app_block_supply. Qed.
 Print Assumptions C01_block_changes_supply_by_mint_minus_burn.
 
+(* ... and over whole histories of blocks: Σ balances + burned grows by exactly what the schedule minted *)
+Theorem C01_history_changes_supply_by_mint_minus_burn :
+  forall times w tot w', app_run w times = Ok (tot, w') -> 0 <= aw_mint_denom w ->
+  bank_wf (dw_bal (aw_distr w)) -> dc_wf (dw_burned (aw_distr w)) -> states_wf (dw_states (aw_distr w)) ->
+  0 <= tot /\ mw_supply (aw_minter w') = mw_supply (aw_minter w) + tot /\
+  forall d, btotal d (dw_bal (aw_distr w')) + dc_amt d (dw_burned (aw_distr w')) =
+            btotal d (dw_bal (aw_distr w)) + dc_amt d (dw_burned (aw_distr w)) + (if d =? aw_mint_denom w then tot else 0).
+Proof. exact app_history_supply. Qed.
+Print Assumptions C01_history_changes_supply_by_mint_minus_burn.
+
+(* C01 with C02: from a genesis with zero counters, after any strictly increasing sequence of block times, everything that
+   exists in the mint denomination (all balances plus everything burned) has grown by exactly the integer part of the
+   schedule's cumulative emission at the last block time, and nothing in any other denomination — for every validated
+   schedule, every distributor configuration and state, every block cadence *)
+Theorem C01_history_supply_is_initial_plus_schedule_minus_burn :
+  forall times w tot w' Tl,
+  app_run w times = Ok (tot, w') -> 0 <= aw_mint_denom w ->
+  bank_wf (dw_bal (aw_distr w)) -> dc_wf (dw_burned (aw_distr w)) -> states_wf (dw_states (aw_distr w)) ->
+  let p := mw_params (aw_minter w) in let g := mw_state (aw_minter w) in
+  params_valid p = true -> periods_sane_from (mp_start p) (mp_minters p) -> mp_denom_ok p = true -> 0 <= mp_start p ->
+  match mp_minters p with cur :: _ => s_seq g = m_seq cur | [] => True end -> s_minted g = 0 -> s_rem_prev g = 0 ->
+  s_last g <= Tl -> increasing Tl times -> Forall (fun t => t <= MAXI64) times -> times <> [] ->
+  tot = (if last times Tl <? mp_start p then 0 else dec_trunc_int (exact_sum (mp_start p) (mp_minters p) (last times Tl))) /\
+  forall d, btotal d (dw_bal (aw_distr w')) + dc_amt d (dw_burned (aw_distr w')) =
+            btotal d (dw_bal (aw_distr w)) + dc_amt d (dw_burned (aw_distr w)) + (if d =? aw_mint_denom w then tot else 0).
+Proof. exact app_history_supply_is_schedule. Qed.
+Print Assumptions C01_history_supply_is_initial_plus_schedule_minus_burn.
+
 From C4EProps Require C03 C05.
 Example C01_example :
   (match dist_begin_block C4EProps.C03.ex_dworld [] with
    | Ok (w1, _, _) => btotal 0 (dw_bal w1) + dc_amt 0 (dw_burned w1) = 1001 /\ 0 < dc_amt 0 (dw_burned w1)
    | _ => False end) /\
   wtotal (run C4EProps.C05.ex_w [OCreatePool 7 3 700 50 1; OSend 7 9 2 120 true; OTime 400; OWithdraw 7]) 0 = wtotal C4EProps.C05.ex_w 0.
+Proof. vm_compute. repeat split. Qed.
+
+(* non-vacuity of the history theorems: the schedule of C02's example feeding the graph of C03's example; blocks at 300.5 s,
+   999 s and 1500 s mint 1000 in total, of which the distribution burns 10% *)
+Example C01_history_example :
+  let p := {| mp_denom_ok := true; mp_start := 0;
+              mp_minters := [{| m_seq := 1; m_end := Some (1000 * 1000000000); m_cfg := CLinear 1000 |};
+                             {| m_seq := 2; m_end := None; m_cfg := CNone |}] |} in
+  let g := {| s_seq := 1; s_minted := 0; s_rem := 0; s_rem_prev := 0; s_last := 0 |} in
+  let w := {| aw_minter := {| mw_params := p; mw_state := g; mw_hist := []; mw_supply := 1001 |};
+              aw_distr := C4EProps.C03.ex_dworld; aw_mint_denom := 0 |} in
+  match app_run w [300500000000; 999000000000; 1500000000000] with
+  | Ok (tot, w') => tot = 1000 /\ mw_supply (aw_minter w') = 2001 /\
+                    btotal 0 (dw_bal (aw_distr w')) = 1801 /\ dc_amt 0 (dw_burned (aw_distr w')) = 200
+  | _ => False end.
 Proof. vm_compute. repeat split. Qed.
